@@ -57,7 +57,7 @@ EVENTS = {
     "set25_noack": ("alarm", ("set", 25, "noack")), "clear25_noack": ("alarm", ("clear", 25, "noack")),
 }
 ALPHABET_QUICK = ["ec20_7", "en25", "set25", "set25_noack", "ec20_11", "ec20_4_then_bad", "clear25", "ec2_025", "sv_toggle", "dis25", "ec20_3_ec2_1",
-                  "bad_then_ec2_0", "ec20_2_unknown", "set26", "ec20_0", "ec20_10", "ec20_m1", "ec2_15", "ec2_m1", "ec21_1", "ec21_0"]
+                  "bad_then_ec2_0", "ec20_2_unknown", "set26", "ec20_0", "ec20_10", "ec20_m1", "ec2_15", "ec2_m1", "ec21_1", "ec21_0", "clear25_noack"]
 ALPHABET_FULL = list(EVENTS)
 
 ID_LISTS_SV = [[], [10], ["SV2"], [10, "SV2"], ["SV2", 10], [99], [10, 99], [99, 10], [10, 10], ["nope"], [1002], [1004, 1005]]
